@@ -187,6 +187,30 @@ def eval_script(cx: H11.Ctx, case: dict[str, Any], tmp: str) -> None:
         cx.nontrivial = True
 
 
+
+FALSY = [None, False, 0, 0.0, "", float("nan")]
+
+
+def falsy_member(d: OD.BaseDistribution, r: random.Random) -> Any:
+    """A member of the domain that is `None` or falsy, if there is one (None as a categorical choice, 0, 0.0, '',
+    False): the values on which `if value:` / `.get(name) is None` shortcuts in the fixed-parameter path go wrong."""
+    if isinstance(d, OD.CategoricalDistribution):
+        c = [x for x in d.choices if x is None or (isinstance(x, (bool, int, float, str)) and not x)]
+        return r.choice(c) if c else "<none>"
+    if isinstance(d, OD.IntDistribution):
+        return 0 if member(d, 0) is None else "<none>"
+    return 0.0 if member(d, 0.0) is None else "<none>"
+
+
+def with_falsy_choice(c: dict[str, Any], r: random.Random) -> dict[str, Any]:
+    if c["cls"] == "CategoricalDistribution" and r.random() < 0.5:
+        c = dict(c)
+        ch = list(c["choices"])
+        ch.insert(r.randrange(len(ch) + 1), r.choice([None, None, False, 0, ""]))
+        c["choices"] = ch
+    return c
+
+
 def gen_script(r: random.Random) -> dict[str, Any]:
     names = ["a", "b", "c", "d"][: r.randint(1, 4)]
 
@@ -199,7 +223,7 @@ def gen_script(r: random.Random) -> dict[str, Any]:
             if max(abs(c["low"]), abs(c["high"])) >= 2 ** 50:
                 c = {"cls": "IntDistribution", "low": -5, "high": 20, "log": False, "step": 5}
         else:
-            c = K.gen_cat(r)
+            c = with_falsy_choice(K.gen_cat(r), r)
         return K.case_of(K.build(c))
 
     base = {n: dist_case() for n in names}
@@ -231,6 +255,10 @@ def gen_script(r: random.Random) -> dict[str, Any]:
 
     def value_for(c: dict[str, Any], inside: float = 0.7) -> Any:
         d = K.build(c)
+        if r.random() < 0.3:
+            f = falsy_member(d, r)
+            if not (isinstance(f, str) and f == "<none>"):
+                return f
         if r.random() < inside:
             return H11.values_for(d, r, 1)[0]
         if isinstance(d, OD.CategoricalDistribution):
@@ -739,7 +767,7 @@ def _gen_param(r: random.Random, i: int, finite: bool = False, allow_dynamic: bo
     else:
         c = K.gen_cat(r)
         c["choices"] = c["choices"][:4]
-        variants.append(c)
+        variants.append(with_falsy_choice(c, r))
     if allow_dynamic and r.random() < 0.4 and "Categorical" not in variants[0]["cls"]:
         c0 = variants[0]
         c1 = dict(c0)
@@ -806,7 +834,8 @@ def gen_run(r: random.Random, spec: dict[str, Any], quick: bool) -> dict[str, An
             for p in params:
                 if r.random() < 0.5:
                     d = K.build(p["variants"][t % len(p["variants"])])
-                    fx[p["name"]] = H11.values_for(d, r, 1)[0]
+                    f = falsy_member(d, r) if r.random() < 0.35 else "<none>"
+                    fx[p["name"]] = H11.values_for(d, r, 1)[0] if isinstance(f, str) and f == "<none>" else f
             if fx:
                 enq[str(t)] = fx
     case["enqueue"] = enq
